@@ -430,6 +430,148 @@ func extractC14(c *ctxT) {
 	c.facts["C14.signedFields"] = fields
 	c.facts["C14.sigComparedWith"] = cmp
 
+
+	// ---- gov callbacks: which involvement each callback refuses, in source order ----------------------------
+	cbChecks := func(name string) []string {
+		var out []string
+		fd := c.findFunc(c14Keeper, "GovMigrate", name)
+		if fd == nil || fd.Body == nil {
+			return out
+		}
+		var lit *ast.FuncLit
+		ast.Inspect(fd.Body, func(n ast.Node) bool {
+			if fl, ok := n.(*ast.FuncLit); ok && lit == nil {
+				lit = fl
+				return false
+			}
+			return true
+		})
+		if lit == nil {
+			return out
+		}
+		who := func(arg string) string {
+			switch {
+			case arg == "from" || strings.HasPrefix(arg, "from."):
+				return "from"
+			case arg == "to" || strings.HasPrefix(arg, "to.") || strings.Contains(arg, "(to."):
+				return "to"
+			}
+			return "?" + arg
+		}
+		returnsErr := func(b *ast.BlockStmt) bool {
+			for _, st := range b.List {
+				if rs, ok := st.(*ast.ReturnStmt); ok && len(rs.Results) == 2 && c.src(rs.Results[1]) != "nil" {
+					return true
+				}
+			}
+			return false
+		}
+		stmts := lit.Body.List
+		for i, st := range stmts {
+			switch x := st.(type) {
+			case *ast.IfStmt:
+				// if A.Equals(sdk.AccAddress(proposer)) { return false, err }
+				if ce, ok := x.Cond.(*ast.CallExpr); ok && returnsErr(x.Body) {
+					if se, ok := ce.Fun.(*ast.SelectorExpr); ok && se.Sel.Name == "Equals" && len(ce.Args) == 1 &&
+						strings.Contains(c.src(ce.Args[0]), "proposer") {
+						out = append(out, "proposer-"+who(c.src(se.X)))
+					}
+				}
+			case *ast.AssignStmt:
+				if len(x.Rhs) != 1 || len(x.Lhs) != 2 {
+					continue
+				}
+				ce, ok := x.Rhs[0].(*ast.CallExpr)
+				if !ok {
+					continue
+				}
+				// the following statements must return the error / refuse on the flag
+				refusedOn := func(v string) bool {
+					for _, nx := range stmts[i+1:] {
+						if is, ok := nx.(*ast.IfStmt); ok && c.src(is.Cond) == v && returnsErr(is.Body) {
+							return true
+						}
+						if as, ok := nx.(*ast.AssignStmt); ok && len(as.Lhs) > 0 && c.src(as.Lhs[0]) == v {
+							return false // overwritten before it was looked at
+						}
+					}
+					return false
+				}
+				if se, ok := ce.Fun.(*ast.SelectorExpr); ok && (se.Sel.Name == "HasDeposit" || se.Sel.Name == "HasVote") && len(ce.Args) == 3 &&
+					c.src(ce.Args[1]) == "proposal.Id" {
+					kind := "deposit-"
+					if se.Sel.Name == "HasVote" {
+						kind = "vote-"
+					}
+					if refusedOn(c.src(x.Lhs[0])) {
+						out = append(out, kind+who(c.src(ce.Args[2])))
+					}
+					continue
+				}
+				// b, err := m.DepositPeriodCallback(ctx, from, to)(proposal); if err != nil { return b, err }
+				if inner, ok := ce.Fun.(*ast.CallExpr); ok && len(ce.Args) == 1 && c.src(ce.Args[0]) == "proposal" {
+					if se, ok := inner.Fun.(*ast.SelectorExpr); ok && se.Sel.Name == "DepositPeriodCallback" &&
+						len(inner.Args) == 3 && c.src(inner.Args[1]) == "from" && c.src(inner.Args[2]) == "to" {
+						if i+1 < len(stmts) {
+							if is, ok := stmts[i+1].(*ast.IfStmt); ok && c.src(is.Cond) == "err != nil" && returnsErr(is.Body) {
+								out = append(out, "deposit-callback")
+							}
+						}
+					}
+				}
+			}
+		}
+		return out
+	}
+	depChecks, voteChecks := cbChecks("DepositPeriodCallback"), cbChecks("VotePeriodCallback")
+	sb.WriteString("/-- what `DepositPeriodCallback` / `VotePeriodCallback` refuse, in source order (`deposit-callback` = the vote callback first runs the deposit callback) -/\n")
+	sb.WriteString("def govDepositChecks : List String := " + q(depChecks) + "\n")
+	sb.WriteString("def govVoteChecks : List String := " + q(voteChecks) + "\n\n")
+	c.facts["C14.govDepositChecks"] = depChecks
+	c.facts["C14.govVoteChecks"] = voteChecks
+
+	// ---- the per-entry queue rewrite loops of Execute -----------------------------------------------------
+	// (entries ranged over, branch statements inside the entry loop, the condition under which a queue element is renamed,
+	//  where the rewrite flag is declared)
+	var qloops [][4]string
+	if fd := c.findFunc(c14Keeper, "DistrStakingMigrate", "Execute"); fd != nil && fd.Body != nil {
+		ast.Inspect(fd.Body, func(n ast.Node) bool {
+			rs, ok := n.(*ast.RangeStmt)
+			if !ok || !strings.HasSuffix(c.src(rs.X), ".Entries") {
+				return true
+			}
+			var branches, conds []string
+			flag := "outside"
+			ast.Inspect(rs.Body, func(m ast.Node) bool {
+				switch y := m.(type) {
+				case *ast.BranchStmt:
+					branches = append(branches, y.Tok.String())
+				case *ast.DeclStmt:
+					if strings.Contains(c.src(y), "Flag bool") {
+						flag = "inside"
+					}
+				case *ast.IfStmt:
+					if strings.Contains(c.src(y.Body), ".DelegatorAddress =") {
+						conds = append(conds, c.src(y.Cond))
+					}
+				}
+				return true
+			})
+			qloops = append(qloops, [4]string{c.src(rs.X), strings.Join(branches, ","), strings.Join(conds, " ;; "), flag})
+			return true
+		})
+	}
+	sb.WriteString("/-- the entry loops of `Execute`: (entries, branch statements in the loop, rename condition, rewrite flag declared) -/\n")
+	sb.WriteString("def queueLoops : List (String × String × String × String) := [")
+	for i, l := range qloops {
+		if i > 0 {
+			sb.WriteString(", ")
+		}
+		sb.WriteString("(" + leanStr(l[0]) + ", " + leanStr(l[1]) + ", " + leanStr(l[2]) + ", " + leanStr(l[3]) + ")")
+	}
+	sb.WriteString("]\n\n")
+	c.facts["C14.queueLoops"] = qloops
+
 	// ---- staking Validate checks ---------------------------------------------------------------------------
 	var checks []string
 	if fd := c.findFunc(c14Keeper, "DistrStakingMigrate", "Validate"); fd != nil && fd.Body != nil {
